@@ -283,6 +283,14 @@ def register(reg):
                 return default
             raise EngineError('parse_content called with %r as parser' % (parser,))
         return f
+    @reg.spec('math_parser_opens')
+    def math_parser_opens(it, parser, ps):
+        if isinstance(parser, AbsVal) and parser.attrs.get('kind') == 'math_parser':
+            d = (parser.attrs.get('args') or {}).get('math_mode_delimiters')
+            table = ps.fields.get('_math_delims_info_by_open') if isinstance(ps, Obj) else None
+            if d is not None and V.is_str(d) and table is not None:
+                return it.contains_term(d, table)
+        return True
     reg.spec('p_start')(p_attr('span_start', None))
     reg.spec('p_kind')(p_attr('kind', 'other_parser'))
     reg.spec('p_may_eos')(p_attr('may_eos', True))
@@ -300,6 +308,9 @@ def register(reg):
             ('reader-stays-in-the-string', '0 <= token_reader._pos and token_reader._pos <= len(self.s)'),
             ('reader-never-moves-backwards', 'old(token_reader._pos) <= token_reader._pos'),
             ('group-parser-always-yields-its-node', "implies(p_kind(parser) == 'group_parser', result[0] is not None)"),
+            # verified for the real math parser by LatexDelimitedExpressionParser.parse / LatexMathParserInfo.is_opening_delimiter
+            # (contracts/delimited.py, contracts/mathmode.py): a token that opens no delimiter pair makes it raise, not return
+            ('a-math-parser-asked-for-a-delimiter-that-opens-nothing-does-not-return', 'math_parser_opens(parser, parsing_state)'),
             ('delimited-parsers-consume-their-opening-delimiter',
              "implies(p_kind(parser) == 'group_parser' or p_kind(parser) == 'math_parser', %s < token_reader._pos)" % START),
             ('node-lies-in-range', 'result[0] is None or (%s <= result[0].pos and result[0].pos <= result[0].pos_end '
@@ -330,6 +341,13 @@ def register(reg):
         if k in ('brace_close', 'end_environment'):
             return True
         if k in ('mathmode_inline', 'mathmode_display'):
+            # handed to a math parser for exactly this delimiter: by the parser contract that parser returns normally only if
+            # the delimiter opens a pair in the state it was given (otherwise it raises a located parse error), so the token
+            # was not silently accepted
+            for parser, _st in it.ctx.ghost.get('parse_calls', []):
+                if isinstance(parser, AbsVal) and parser.attrs.get('kind') == 'math_parser' and \
+                        (parser.attrs.get('args') or {}).get('math_mode_delimiters') is t.fields['arg']:
+                    return False
             return z_not(it.contains_term(t.fields['arg'], ps.fields['_math_delims_info_by_open']))
         return False
 
